@@ -248,6 +248,18 @@ static int dec_expect(const char *site, const char *method, const uint8_t *in, s
 		if (gc != elen || memcmp(out, exp, elen))
 			vf_viol("decoder-input-chunking", "method=%s in=%s: output differs when the input callback delivers its bytes in pieces (mode %d: at most k bytes, or irregular pattern -k) (%zu of %zu bytes)", method, vf_hex(in, n), ck, gc, elen);
 	}
+	/* the same stream followed by four more bytes (0xFF or 0x00): with the declared length equal to what the commands denote,
+	 * decoding stops there and the result is the same */
+	if ((VF.index % 5) == 0 && n + 4 <= 70000 && elen > 0 && strcmp(method, "-lh0-") && strcmp(method, "-lz4-") && strcmp(method, "-pm0-")) {
+		static uint8_t ext[70004];
+		dec_result rt;
+		size_t gt;
+		memcpy(ext, in, n);
+		memset(ext + n, (VF.index % 10) == 0 ? 0xFF : 0x00, 4);
+		gt = dec_run(method, ext, n + 4, elen, out, 0, 0, &rt);
+		if (gt != elen || memcmp(out, exp, elen))
+			vf_viol("decoder-trailing-bytes", "method=%s in=%s: output differs when four %s bytes follow the stream (%zu of %zu bytes)", method, vf_hex(in, n), (VF.index % 10) == 0 ? "0xFF" : "0x00", gt, elen);
+	}
 	/* a caller that probes with zero-length requests (before the first byte and between its reads of 1, 7 and 61 bytes) */
 	if ((VF.index & 3) == 3 && elen > 0) {
 		LHADecoderType *dt = lha_decoder_for_name((char *) method);
